@@ -1,19 +1,42 @@
-"""C16 — merging: provenance of the cell index offset and of the data offsets."""
+"""C16 — merging: provenance of the cell index offset and of the data offsets.
+
+The sites are located by what they do (the addition applied to an input's `cells`; the slice store of a data's `values`;
+the stores into the running-offset table that the slice start is read from; the re-indexing store `x.values = x.values[..]`),
+on the normalised view of each function (private helpers expanded) with loops over literal tables unrolled, and every
+comparison is made on alias-expanded expressions (temporaries, values read once into a local, split / merged statements
+and renamed locals do not matter) — see _c16_flow.py.
+"""
 
 from __future__ import annotations
 
 import ast
+import re
 
 from ..model import AnalysisError, unparse
 from ..report import RuleResult
+from ..roles import param
+from ._c16_flow import Locals, called_helpers, element_vars, enclosing, unrolled
+
+_SHIFTED = "shifted_cells__"  # stands for `<input>.cells + <offset>` inside an offset source (a local in the pinned tree)
+_MODULES = ("np", "numpy", "int")
 
 
 def _leaves(expr):
-    """Maximal Name/Attribute/Subscript chains and constants of an expression, with calls' function names."""
+    """Maximal Name/Attribute/Subscript chains of an expression; calls contribute their arguments and, for method calls,
+    their receiver (`x.cells.max()` reads `x.cells`); `len(<chain>)` is kept whole."""
     out = []
 
+    def root(e):
+        while isinstance(e, (ast.Attribute, ast.Subscript)):
+            e = e.value
+        return e
+
     def rec(e):
-        if isinstance(e, (ast.Attribute, ast.Name)):
+        if isinstance(e, (ast.Attribute, ast.Subscript)) and not isinstance(root(e), ast.Name):
+            rec(root(e))  # `(a + b).size`, `f(x)[0]`: what the chain is rooted at
+            if isinstance(e, ast.Subscript):
+                rec(e.slice)
+        elif isinstance(e, (ast.Attribute, ast.Name)):
             out.append(unparse(e))
         elif isinstance(e, ast.Subscript):
             out.append(unparse(e))
@@ -22,6 +45,8 @@ def _leaves(expr):
             if fname == "len" and len(e.args) == 1:
                 out.append(f"len({unparse(e.args[0])})")
                 return
+            if isinstance(e.func, ast.Attribute):
+                rec(e.func.value)
             for a in e.args:
                 rec(a)
             for k in e.keywords:
@@ -41,6 +66,368 @@ def _vertex_count_source(leaf: str, ent: str) -> bool:
     return leaf in (f"{ent}.n_vertices", f"{ent}.vertices.shape[0]", f"len({ent}.vertices)", f"{ent}.vertices.shape")
 
 
+def _bare(leaf: str) -> bool:
+    return "." not in leaf and "(" not in leaf and "[" not in leaf
+
+
+def _role_text(text: str, mapping: dict) -> str:
+    """`text` with the spellings of role-carrying expressions replaced by the role (finding keys carry no local names)."""
+    for spelled, role in mapping.items():
+        if not spelled:
+            continue
+        if spelled.isidentifier():
+            text = re.sub(rf"(?<![\w.]){re.escape(spelled)}\b", role, text)
+        else:
+            text = text.replace(spelled, role)
+    return text
+
+
+def _unwrapped(e):
+    """x.copy() / x.astype(..) / np.array(x) / np.asarray(x) -> x"""
+    while True:
+        if isinstance(e, ast.Call) and isinstance(e.func, ast.Attribute) and e.func.attr in ("copy", "astype"):
+            e = e.func.value
+        elif isinstance(e, ast.Call) and isinstance(e.func, ast.Attribute) and e.func.attr in ("array", "asarray") and e.args \
+                and isinstance(e.func.value, ast.Name) and e.func.value.id in ("np", "numpy"):
+            e = e.args[0]
+        else:
+            return e
+
+
+def _cells_owner(e):
+    """The expression whose `.cells` this is, else None."""
+    e = _unwrapped(e)
+    if isinstance(e, ast.Attribute) and e.attr == "cells":
+        return e.value
+    return None
+
+
+def _const(ctx, fn, e):
+    """The literal a key expression stands for: a constant, or a module / class level name bound to one."""
+    if isinstance(e, ast.Constant):
+        return e.value
+    v = None
+    if isinstance(e, ast.Name):
+        r = ctx.p.resolve_name(fn.module, e.id)
+        if r and r[0] == "assign":
+            v = r[1][1]
+    elif isinstance(e, ast.Attribute) and isinstance(e.value, ast.Name) and fn.cls is not None:
+        owner = fn.cls if e.value.id in ("self", "cls", fn.self_name or "") else None
+        if owner is None:
+            r = ctx.p.resolve_name(fn.module, e.value.id)
+            owner = r[1] if r and r[0] == "class" else None
+        for c in (owner.mro if owner is not None else []):
+            if not isinstance(c, str) and e.attr in c.class_assigns:
+                v = c.class_assigns[e.attr][0]
+                break
+    return v.value if isinstance(v, ast.Constant) else None
+
+
+# ---------------------------------------------------------------------- CellMerger.create_object
+def _add_operands(n):
+    """(a, b) of `a + b` / `np.add(a, b)`, else None."""
+    if isinstance(n, ast.BinOp) and isinstance(n.op, ast.Add):
+        return n.left, n.right
+    if isinstance(n, ast.Call) and isinstance(n.func, ast.Attribute) and n.func.attr == "add" and isinstance(n.func.value, ast.Name) \
+            and n.func.value.id in ("np", "numpy") and len(n.args) == 2 and not n.keywords:
+        return n.args[0], n.args[1]
+    return None
+
+
+def _cell_offset(ctx, res):
+    cm = ctx.view("CellMerger.create_object")
+    # the function with its private helpers expanded; helpers that cannot be expanded (generators, ...) are searched as they are
+    found = 0
+    for fn in [cm] + [ctx.view(h) for h in called_helpers(ctx.p, cm)]:
+        found += _cell_offset_in(res, cm, fn)
+    if not found:
+        raise AnalysisError("CellMerger.create_object: `<entity>.cells + <offset>` not found")
+
+
+def _cell_offset_in(res, cm, fn) -> int:
+    node = unrolled(fn.node)
+    lc = Locals(node)
+    sites = []  # (owner of .cells, offset expression, text of the shifted cells)
+    shifted_names = set()
+    for n in ast.walk(node):
+        ops = _add_operands(n)
+        if ops is not None:
+            for a, b in (ops, ops[::-1]):
+                owner = _cells_owner(lc.expand(a))
+                if owner is not None:
+                    sites.append((owner, b, lc.text(n)))
+                    break
+        elif isinstance(n, ast.AugAssign) and isinstance(n.op, ast.Add) and isinstance(n.target, ast.Name):
+            for d in lc.defs.get(n.target.id, []):
+                owner = _cells_owner(lc.expand(d))
+                if owner is not None:
+                    sites.append((owner, n.value, None))
+                    shifted_names.add(n.target.id)  # `t = x.cells.copy(); t += offset`: t is the shifted cells
+    if not sites:
+        return 0
+    shifted = {t for _, _, t in sites if t}
+
+    class Fold(ast.NodeTransformer):
+        def visit_BinOp(self, b):
+            if unparse(b) in shifted:
+                return ast.copy_location(ast.Name(id=_SHIFTED, ctx=ast.Load()), b)
+            self.generic_visit(b)
+            return b
+
+        def visit_Call(self, c):
+            if unparse(c) in shifted:
+                return ast.copy_location(ast.Name(id=_SHIFTED, ctx=ast.Load()), c)
+            self.generic_visit(c)
+            return c
+
+    def is_local(root):
+        return root == _SHIFTED or root in shifted_names or ((root in lc.defs or root in lc.augs or root in lc.opaque) and root not in lc.params)
+
+    done = set()
+    for owner, off, _t in sites:
+        ent = unparse(owner)
+        followed: set = set()
+        queue = [(off, True, True)]
+        while queue:
+            s, additive, initial = queue.pop(0)
+            sx = Fold().visit(lc.expand(s))
+            bad = []
+            for lf in _leaves(sx):
+                if lf in followed or _vertex_count_source(lf, ent) or lf in _MODULES:
+                    continue
+                if _bare(lf) and lf != _SHIFTED and lf not in shifted_names and lf not in lc.params and lf not in lc.opaque and (lf in lc.defs or lf in lc.augs):
+                    # an accumulator / re-bound local: everything assigned to it is a source as well
+                    followed.add(lf)
+                    queue += [(v, add, False) for v, add in lc.sources(lf)]
+                    continue
+                bad.append(lf)
+            if initial and isinstance(s, ast.Name) and s.id in followed and not bad:
+                continue  # the offset variable itself: its sources are judged one by one
+            mark = (ent, unparse(s), additive)
+            if mark in done:
+                continue
+            done.add(mark)
+            ok = not bad and additive
+            res.inst(f"CellMerger.create_object: offset source `{unparse(s)[:50]}`", nontrivial=True, ok=ok)
+            if ok:
+                continue
+            where = f"{fn.module.relpath}:{getattr(s, 'lineno', fn.node.lineno)}"
+            if bad:
+                # key without local spellings: the offending source is named by what it is (a chain rooted at the input keeps its text
+                # with the input named by role, anything rooted at a local becomes <local>)
+                root = re.match(r"(?:len\()?([A-Za-z_]\w*)", bad[0])
+                rooted_at_input = bad[0].startswith(ent) or bad[0].startswith(f"len({ent}")
+                shown = "<local>" if (_bare(bad[0]) or (root and is_local(root.group(1)) and not rooted_at_input)) else _role_text(bad[0], {ent: "<input>"})
+                res.find("CellMerger", "create_object", f"cell offset derives from {shown}", where,
+                         f"the offset added to each input's cells comes from `{unparse(s)[:50]}` (a cell-value source) instead of the input's vertex "
+                         "count: an input with a vertex above its highest referenced one shifts every following input's cells onto wrong vertices")
+            else:
+                res.find("CellMerger", "create_object", "cell offset has a non-additive update", where,
+                         f"the offset added to each input's cells is updated by `{unparse(s)[:50]}` with an operator other than +: it is not the "
+                         "accumulated vertex count of the preceding inputs")
+    return len(sites)
+
+
+# ---------------------------------------------------------------------- BaseMerger.merge_data
+def _bounds(sl, lc):
+    """(lower, upper) of a destination index: `a:b`, slice(a, b), range / np.arange(a, b); None when it is not a range."""
+    if isinstance(sl, ast.Slice):
+        return (sl.lower, sl.upper) if sl.step is None else None
+    e = lc.expand(sl)
+    if isinstance(e, ast.Slice):
+        return (e.lower, e.upper) if e.step is None else None
+    if isinstance(e, ast.Call) and not e.keywords and len(e.args) == 2:
+        f = e.func
+        nm = f.attr if isinstance(f, ast.Attribute) else getattr(f, "id", None)
+        if nm in ("slice", "range", "arange"):
+            return e.args[0], e.args[1]
+    return None
+
+
+def _assoc_test(ctx, fn, test, dvar):
+    """(K, positive?) for a test of the data's own association against one association: `<data>.association.name == "K"`,
+    `<data>.association == <Enum>.K`, `is`, and their negations; else None."""
+    if not (isinstance(test, ast.Compare) and len(test.ops) == 1 and isinstance(test.ops[0], (ast.Eq, ast.Is, ast.NotEq, ast.IsNot))):
+        return None
+    positive = isinstance(test.ops[0], (ast.Eq, ast.Is))
+    for a, b in ((test.left, test.comparators[0]), (test.comparators[0], test.left)):
+        if unparse(a) == f"{dvar}.association.name":
+            k = _const(ctx, fn, b)
+            if isinstance(k, str):
+                return k, positive
+        if unparse(a) == f"{dvar}.association" and isinstance(b, ast.Attribute) and b.attr.isupper():
+            return b.attr, positive
+    return None
+
+
+def _var_slots(ctx, fn, lo, dvar, keys):
+    """{association: local} when the (alias-expanded) slice start chooses one local per association by testing the data's own
+    association — the elif-chain form of the offset table; None for anything else."""
+    slots, remaining, e = {}, list(keys), lo
+    while isinstance(e, ast.IfExp):
+        kt = _assoc_test(ctx, fn, e.test, dvar)
+        if kt is None:
+            return None
+        then, other = (e.body, e.orelse) if kt[1] else (e.orelse, e.body)
+        if not isinstance(then, ast.Name) or kt[0] not in remaining:
+            return None
+        slots[kt[0]] = then.id
+        remaining.remove(kt[0])
+        e = other
+    if slots and isinstance(e, ast.Name) and len(remaining) == 1:
+        slots[remaining[0]] = e.id
+        return slots
+    return None
+
+
+def _data_offsets(ctx, res):
+    md = ctx.view("BaseMerger.merge_data")
+    node = unrolled(md.node)
+    lc = Locals(node)
+    coll = param(md, 1, "input_entities")
+    want = {"VERTEX": "n_vertices", "CELL": "n_cells"}
+    # the destination of each data's values: `<merged values>[a:b] = <data>.values`
+    writes = []
+    for n in ast.walk(node):
+        if isinstance(n, ast.Assign) and len(n.targets) == 1 and isinstance(n.targets[0], ast.Subscript):
+            v = lc.expand(n.value)
+            b = _bounds(n.targets[0].slice, lc)
+            if isinstance(v, ast.Attribute) and v.attr == "values" and b is not None:
+                writes.append((n, unparse(v.value), b))
+    if not writes:
+        raise AnalysisError("BaseMerger.merge_data: the slice store `<merged values>[start:end] = <data>.values` not found")
+    # the running offsets: the table the slice start is read from (else the dict initialised with the association names), or
+    # one local per association chosen by a test of the data's association (`v if assoc == "VERTEX" else c`)
+    tables, slots = [], {}
+    for _n, dvar, (lower, _u) in writes:
+        lo = lc.expand(lower) if lower is not None else None
+        if isinstance(lo, ast.Subscript) and isinstance(lo.value, ast.Name) and lo.value.id not in tables:
+            tables.append(lo.value.id)
+        slots.update(_var_slots(ctx, md, lo, dvar, list(want)) or {})
+    if not tables and not slots:
+        for n in ast.walk(node):
+            if isinstance(n, (ast.Assign, ast.AnnAssign)) and isinstance(n.value, ast.Dict) and {getattr(k, "value", None) for k in n.value.keys} == set(want):
+                tg = n.targets[0] if isinstance(n, ast.Assign) else n.target
+                if isinstance(tg, ast.Name) and tg.id not in tables:
+                    tables.append(tg.id)
+    if not tables and not slots:
+        raise AnalysisError("BaseMerger.merge_data: running-offset dictionary {'VERTEX': 0, 'CELL': 0} not found")
+    slot_key = {nm: k for k, nm in slots.items()}
+    updates = []  # (statement, target, association key)
+    for n in ast.walk(node):
+        if isinstance(n, (ast.AugAssign, ast.Assign)):
+            for t in (n.targets if isinstance(n, ast.Assign) else [n.target]):
+                if isinstance(t, ast.Subscript) and lc.text(t.value) in tables:
+                    k = _const(ctx, md, lc.expand(t.slice))
+                    updates.append((n, t, k if isinstance(k, str) else None))
+                elif isinstance(t, ast.Name) and t.id in slot_key:
+                    if isinstance(n, ast.Assign) and isinstance(n.value, ast.Constant) and not any(isinstance(x, (ast.For, ast.While)) for x, _ in enclosing(node, n)):
+                        continue  # the initial value, before the loop over the inputs
+                    updates.append((n, t, slot_key[t.id]))
+    if not updates:
+        raise AnalysisError("BaseMerger.merge_data: no update of the running offsets found")
+    evars = element_vars(node, coll, lc)
+    seen_keys = set()
+    for n, tg, k in updates:
+        additive, v = isinstance(n, ast.AugAssign) and isinstance(n.op, ast.Add), n.value
+        if isinstance(n, ast.Assign) and isinstance(v, ast.BinOp) and isinstance(v.op, ast.Add):
+            # `t[k] = t[k] + x` is `t[k] += x`
+            for a, b in ((v.left, v.right), (v.right, v.left)):
+                if lc.text(a) == lc.text(tg):
+                    additive, v = True, b
+                    break
+        path = enclosing(node, n)
+        around = [x for x, _ in path]
+        ents = {nm for nm, lp in evars.items() if any(lp is x for x in around)}
+
+        def count_leaf(lf, k=k, ents=ents):
+            if k not in want:
+                return False
+            return any(lf == f"{e}.{want[k]}" or (k == "VERTEX" and _vertex_count_source(lf, e)) for e in ents)
+
+        leaves = [lf for lf in _leaves(lc.expand(v)) if lf not in (unparse(tg), lc.text(tg)) and lf not in _MODULES]
+        attrs = {lf.rsplit(".", 1)[-1] for lf in leaves if "." in lf}
+        ok = k in want and additive and bool(leaves) and all(count_leaf(lf) for lf in leaves)
+        seen_keys.add(k)
+        res.inst(f"merge_data: offset[{k!r}] += {unparse(n.value)[:60]}", nontrivial=True, ok=ok)
+        ent_txt = "/".join(sorted(ents)) or "<input>"
+        if not ok:
+            res.find("BaseMerger", "merge_data", f"{k or '<computed key>'} offset accumulates {sorted(attrs) or '<other>'}", f"{md.module.relpath}:{n.lineno}",
+                     f"the running offsets must advance by the input object's own element counts ({ent_txt}.n_vertices / {ent_txt}.n_cells), once per input: "
+                     "counts taken from the data (or nothing, when an input has no such data) put the next input's values on the wrong rows")
+            continue
+        # once per input: directly in the loop over the inputs, guarded by nothing but a test of the count itself
+        once = True
+        for x, _blk in path:
+            if isinstance(x, (ast.For, ast.AsyncFor)):
+                once = once and any(x is lp for lp in evars.values())
+            elif isinstance(x, ast.While):
+                once = False
+            elif isinstance(x, ast.If):
+                tl = [lf for lf in _leaves(lc.expand(x.test)) if lf not in _MODULES]
+                once = once and all(count_leaf(lf) for lf in tl)
+        res.inst(f"merge_data: offset[{k!r}] advances once per input", ok=once)
+        if not once:
+            res.find("BaseMerger", "merge_data", f"{k} offset is not advanced exactly once per input", f"{md.module.relpath}:{n.lineno}",
+                     f"the {k} offset must advance by {ent_txt}.{want[k]} once for every input (inside a loop over the data, or under a condition "
+                     "on anything but the count itself, it advances per data or not at all): the next input's values land on the wrong rows")
+    for k in want:
+        if k not in seen_keys and not any(f.member == "merge_data" for f in res.findings):
+            res.find("BaseMerger", "merge_data", f"the {k} offset is never advanced", md.where, f"every input's {k} data is written at offset 0")
+    # slice = [offset of the data's own association, that offset + n_values)
+    for n, dvar, (lower, upper) in writes:
+        lo = lc.expand(lower) if lower is not None else None
+        hi = lc.expand(upper) if upper is not None else None
+        roles = {dvar: "<data>"}
+        roles.update({t: "<offsets>" for t in tables + list(slot_key)})
+        shown = _role_text(f"[{unparse(lo) if lo is not None else ''}:{unparse(hi) if hi is not None else ''}]", roles)
+        table_read = isinstance(lo, ast.Subscript) and isinstance(lo.value, ast.Name) and lo.value.id in tables
+        by_test = _var_slots(ctx, md, lo, dvar, list(want)) is not None
+        ok = (table_read or by_test) and isinstance(hi, ast.BinOp) and isinstance(hi.op, ast.Add) and \
+            sorted([unparse(hi.left), unparse(hi.right)]) == sorted([unparse(lo), f"{dvar}.n_values"])
+        res.inst(f"merge_data: destination slice {shown[:80]}", nontrivial=True, ok=ok)
+        if not ok:
+            res.find("BaseMerger", "merge_data", f"slice is {shown[:70]}", f"{md.module.relpath}:{n.lineno}",
+                     "the destination slice is not [offset of this association, offset + n_values)")
+        ok = by_test or (table_read and unparse(lo.slice) == f"{dvar}.association.name")
+        res.inst("merge_data: the offset is selected by the data's own association", ok=ok)
+        if not ok:
+            res.find("BaseMerger", "merge_data", "association selector changed", md.where, "vertex data may be placed with the cell offset or vice versa")
+
+
+# ---------------------------------------------------------------------- DrapeModelMerger.merge_data
+def _drape_reindex(ctx, res):
+    """The ghost re-indexing visits every child of the output exactly once."""
+    dm = ctx.view("DrapeModelMerger.merge_data")
+    node = unrolled(dm.node)
+    lc = Locals(node)
+    out_name = param(dm, 0, "out_entity")
+    reidx = []
+    for n in ast.walk(node):
+        if isinstance(n, ast.Assign) and len(n.targets) == 1 and isinstance(n.targets[0], ast.Attribute) and n.targets[0].attr == "values":
+            tgt, v = lc.text(n.targets[0]), lc.expand(n.value)
+            src = None
+            if isinstance(v, ast.Subscript):
+                src = v.value
+            elif isinstance(v, ast.Call) and isinstance(v.func, ast.Attribute) and v.func.attr == "take" and (v.args or v.keywords):
+                src = v.args[0] if isinstance(v.func.value, ast.Name) and v.func.value.id in ("np", "numpy") else v.func.value
+            if src is not None and unparse(_unwrapped(src)) == tgt:
+                reidx.append(n)
+    if not reidx:
+        raise AnalysisError("DrapeModelMerger.merge_data: `data.values = data.values[<index map>]` not found")
+    evars = element_vars(node, f"{out_name}.children", lc)
+    for a in reidx:
+        owner = lc.expand(a.targets[0].value)
+        around = [x for x, _ in enclosing(node, a)]
+        ok = isinstance(owner, ast.Name) and owner.id in evars and any(evars[owner.id] is x for x in around)
+        res.inst(f"DrapeModelMerger.merge_data: re-indexing of `{unparse(a.targets[0])}` runs over {out_name}.children", nontrivial=True, ok=ok)
+        if not ok:
+            res.find("DrapeModelMerger", "merge_data", "the re-indexed data is not the loop variable of a loop over <out>.children",
+                     f"{dm.module.relpath}:{a.lineno}",
+                     "data looked up by name (names are not unique) are visited twice or never: same-named data of different types keep the "
+                     "un-reordered values or are reordered twice")
+
+
 def rule_prov(ctx) -> RuleResult:
     res = RuleResult(
         "C16.PROV",
@@ -50,119 +437,9 @@ def rule_prov(ctx) -> RuleResult:
         "offsets accumulate n_vertices / n_cells and the slice end is start + n_values",
         floor=5,
     )
-    p = ctx.p
-    cm = p.func("CellMerger.create_object")
-    adds = [n for n in ast.walk(cm.node) if isinstance(n, ast.BinOp) and isinstance(n.op, ast.Add)
-            and any(isinstance(x, ast.Attribute) and x.attr == "cells" for x in (n.left, n.right))]
-    if not adds:
-        raise AnalysisError("CellMerger.create_object: `<entity>.cells + <offset>` not found")
-    for add in adds:
-        cells_side = add.left if isinstance(add.left, ast.Attribute) and add.left.attr == "cells" else add.right
-        off = add.right if cells_side is add.left else add.left
-        ent = unparse(cells_side.value)
-        if not isinstance(off, ast.Name):
-            srcs = [off]
-            var = None
-        else:
-            var = off.id
-            srcs = []
-            for n in ast.walk(cm.node):
-                if isinstance(n, (ast.Assign, ast.AnnAssign)) and n.value is not None:
-                    tg = n.targets if isinstance(n, ast.Assign) else [n.target]
-                    if any(isinstance(t, ast.Name) and t.id == var for t in tg):
-                        srcs.append(n.value)
-                if isinstance(n, ast.AugAssign) and isinstance(n.target, ast.Name) and n.target.id == var:
-                    if not isinstance(n.op, ast.Add):
-                        srcs.append(ast.Name(id="<non-additive update>", ctx=ast.Load()))
-                    srcs.append(n.value)
-        for s in srcs:
-            bad = [lf for lf in _leaves(s) if not (lf == var or _vertex_count_source(lf, ent) or lf in ("np", "int"))]
-            ok = not bad
-            res.inst(f"CellMerger.create_object: offset source `{unparse(s)[:50]}`", nontrivial=True, ok=ok)
-            if not ok:
-                # key without local spellings: the offending source is named by what it is (an attribute chain keeps its text, a local becomes <local>)
-                shown = lambda t: t if "." in t or "(" in t else "<local>"  # noqa: E731
-                res.find("CellMerger", "create_object", f"cell offset derives from {shown(bad[0])}",
-                         f"{cm.module.relpath}:{getattr(s, 'lineno', cm.node.lineno)}",
-                         f"the offset added to each input's cells comes from `{unparse(s)[:50]}` (a cell-value source) instead of the input's vertex "
-                         "count: an input with a vertex above its highest referenced one shifts every following input's cells onto wrong vertices")
-    md = p.func("BaseMerger.merge_data")
-    # the running offsets: the dict initialised with the association names
-    cdict = None
-    for n in ast.walk(md.node):
-        if cdict is None and isinstance(n, ast.Assign) and isinstance(n.value, ast.Dict) and {getattr(k, "value", None) for k in n.value.keys} == {"VERTEX", "CELL"} \
-                and isinstance(n.targets[0], ast.Name):
-            cdict = n.targets[0].id
-    if cdict is None:
-        raise AnalysisError("BaseMerger.merge_data: running-offset dictionary {'VERTEX': 0, 'CELL': 0} not found")
-    want = {"VERTEX": "n_vertices", "CELL": "n_cells"}
-    outer = next((n for n in ast.walk(md.node) if isinstance(n, ast.For) and isinstance(n.target, ast.Name)), None)
-    ent = outer.target.id if outer is not None else "input_entity"
-    updates = [n for n in ast.walk(md.node) if isinstance(n, (ast.AugAssign, ast.Assign))
-               and any(isinstance(t, ast.Subscript) and unparse(t.value) == cdict for t in (n.targets if isinstance(n, ast.Assign) else [n.target]))]
-    if not updates:
-        raise AnalysisError("BaseMerger.merge_data: no update of the running offsets found")
-    seen_keys = set()
-    for n in updates:
-        tg = n.targets[0] if isinstance(n, ast.Assign) else n.target
-        k = tg.slice.value if isinstance(tg.slice, ast.Constant) else None
-        leaves = [lf for lf in _leaves(n.value) if lf != unparse(tg)]
-        attrs = {lf.rsplit(".", 1)[-1] for lf in leaves if "." in lf}
-        owners = {lf.rsplit(".", 1)[0] for lf in leaves if "." in lf}
-        additive = isinstance(n, ast.AugAssign) and isinstance(n.op, ast.Add)
-        ok = k in want and attrs == {want[k]} and owners == {ent} and additive
-        seen_keys.add(k)
-        res.inst(f"merge_data: offset[{k!r}] += {unparse(n.value)[:60]}", nontrivial=True, ok=ok)
-        if not ok:
-            res.find("BaseMerger", "merge_data", f"{k or unparse(tg.slice)} offset accumulates {sorted(attrs) or unparse(n.value)[:30]}", f"{md.module.relpath}:{n.lineno}",
-                     f"the running offsets must advance by the input object's own element counts ({ent}.n_vertices / {ent}.n_cells), once per input: "
-                     "counts taken from the data (or nothing, when an input has no such data) put the next input's values on the wrong rows")
-    for k in want:
-        if k not in seen_keys and not any(f.member == "merge_data" for f in res.findings):
-            res.find("BaseMerger", "merge_data", f"the {k} offset is never advanced", md.where, f"every input's {k} data is written at offset 0")
-    # slice end = start + n_values
-    # the destination slice bounds: the pair of locals used as `<values>[a:b] = <data>.values`
-    bounds = None
-    for n in ast.walk(md.node):
-        if isinstance(n, ast.Assign) and isinstance(n.targets[0], ast.Subscript) and isinstance(n.targets[0].slice, ast.Slice) and unparse(n.value).endswith(".values"):
-            sl = n.targets[0].slice
-            if isinstance(sl.lower, ast.Name) and isinstance(sl.upper, ast.Name):
-                bounds = [sl.lower.id, sl.upper.id]
-    tup = [n for n in ast.walk(md.node) if isinstance(n, ast.Assign) and isinstance(n.targets[0], ast.Tuple) and bounds and [unparse(t) for t in n.targets[0].elts] == bounds]
-    if not tup:
-        raise AnalysisError("BaseMerger.merge_data: `start, end = ...` not found")
-    v = tup[0].value
-    ok = isinstance(v, ast.Tuple) and len(v.elts) == 2 and isinstance(v.elts[1], ast.BinOp) and isinstance(v.elts[1].op, ast.Add) and \
-        unparse(v.elts[1].left) == unparse(v.elts[0]) and unparse(v.elts[1].right).endswith(".n_values") and isinstance(v.elts[0], ast.Subscript) and isinstance(v.elts[0].slice, ast.Name) and \
-        any(isinstance(a, ast.Assign) and unparse(a.targets[0]) == v.elts[0].slice.id and unparse(a.value).endswith("association.name") for a in ast.walk(md.node))
-    res.inst(f"merge_data: start, end = {unparse(v)[:70]}", nontrivial=True, ok=ok)
-    if not ok:
-        res.find("BaseMerger", "merge_data", f"slice is {unparse(v)[:70]}", f"{md.module.relpath}:{tup[0].lineno}",
-                 "the destination slice is not [offset of this association, offset + n_values)")
-    key = tup[0]
-    sel = v.elts[0].slice.id if isinstance(v, ast.Tuple) and v.elts and isinstance(v.elts[0], ast.Subscript) and isinstance(v.elts[0].slice, ast.Name) else None
-    assoc = [n for n in ast.walk(md.node) if isinstance(n, ast.Assign) and sel is not None and unparse(n.targets[0]) == sel]
-    ok = bool(assoc) and unparse(assoc[0].value).endswith("association.name")
-    res.inst("merge_data: the offset is selected by the data's own association", ok=ok)
-    if not ok:
-        res.find("BaseMerger", "merge_data", "association selector changed", md.where, "vertex data may be placed with the cell offset or vice versa")
-    # DrapeModelMerger.merge_data: the ghost re-indexing visits every child of the output exactly once
-    dm = p.func("DrapeModelMerger.merge_data")
-    reidx = [n for n in ast.walk(dm.node) if isinstance(n, ast.Assign) and isinstance(n.targets[0], ast.Attribute) and n.targets[0].attr == "values"
-             and isinstance(n.value, ast.Subscript) and unparse(n.value.value) == unparse(n.targets[0])]
-    if not reidx:
-        raise AnalysisError("DrapeModelMerger.merge_data: `data.values = data.values[<index map>]` not found")
-    out_name = dm.params[1] if len(dm.params) > 1 else "out_entity"
-    for a in reidx:
-        var = unparse(a.targets[0].value)
-        loops = [n for n in ast.walk(dm.node) if isinstance(n, ast.For) and any(x is a for x in ast.walk(n))]
-        ok = any(isinstance(lp.target, ast.Name) and lp.target.id == var and unparse(lp.iter) == f"{out_name}.children" for lp in loops)
-        res.inst(f"DrapeModelMerger.merge_data: re-indexing of `{var}.values` runs over {out_name}.children", nontrivial=True, ok=ok)
-        if not ok:
-            res.find("DrapeModelMerger", "merge_data", f"the re-indexed data `{var}` is not the loop variable of `for {var} in {out_name}.children`",
-                     f"{dm.module.relpath}:{a.lineno}",
-                     "data looked up by name (names are not unique) are visited twice or never: same-named data of different types keep the "
-                     "un-reordered values or are reordered twice")
+    _cell_offset(ctx, res)
+    _data_offsets(ctx, res)
+    _drape_reindex(ctx, res)
     return res
 
 
